@@ -22,6 +22,7 @@ Not compared (property silent): the text of added headers (e.g. the ``for <...>`
 and Message-Id are inserted, the order of written envelopes, attributes other than
 sender/recipients/headers/message.
 """
+import copy
 import itertools
 import re
 
@@ -220,7 +221,8 @@ class RecordingStorage(QueueStorage):
         self.n += 1
         qid = 'q%d' % self.n
         # body: the ``message`` attribute, which is what flatten()[1] returns; flatten() itself (it
-        # re-folds every header, ~10x the cost of the rest) is called on the last written envelope only
+        # re-folds every header, ~10x the cost of the rest) is called on the last written envelope
+        # of the cases with header variant 'none' only
         snap = (envelope.sender, tuple(envelope.recipients),
                 [(str(k), str(v)) for k, v in envelope.headers.raw_items()], envelope.message)
         self.written.append((envelope, qid, snap))
@@ -242,10 +244,20 @@ def message_data(hv):
 _DATA = [message_data(hv) for hv in range(len(HDR_VARIANTS))]
 
 
-def make_envelope(rcpts, hv):
-    """As an Edge does: Envelope(sender, recipients), parse(data), then the reception metadata."""
+def make_envelope(rcpts, hv, template=None):
+    """As an Edge does: Envelope(sender, recipients), parse(data), then the reception metadata.
+
+    With ``template`` (an envelope built that way for the same header variant, never handed to the
+    queue) the parsed header block is cloned instead of parsed again: a new message object with its
+    own field list holding the same (name, value) strings -- a third of the per-case cost."""
     env = Envelope(SENDER, list(rcpts))
-    env.parse(_DATA[hv])
+    if template is None:
+        env.parse(_DATA[hv])
+    else:
+        headers = copy.copy(template.headers)
+        headers._headers = list(template.headers._headers)
+        env.headers = headers
+        env.message = template.message
     env.client = dict(CLIENT)
     env.receiver = RECEIVER
     env.timestamp = TIMESTAMP
@@ -288,6 +300,18 @@ class Case(object):
         self.n_recv = self.chain.count('AddReceivedHeader')
         self.adds_date = 'AddDateHeader' in self.chain
         self.adds_mid = 'AddMessageIdHeader' in self.chain
+        self.templates = {}
+        self.template_items = {}
+        for hv in range(len(HDR_VARIANTS)):
+            t = make_envelope((), hv)
+            items = [(str(k), str(v)) for k, v in t.headers.raw_items()]
+            c = make_envelope((), hv, t)
+            if (t.message != BODY or len(items) < 5 or c.headers is t.headers or c.headers._headers is t.headers._headers
+                    or [(str(k), str(v)) for k, v in c.headers.raw_items()] != items or c.flatten() != t.flatten()
+                    or type(c.headers) is not type(t.headers)):
+                raise HarnessError('input envelope not built as intended: %r %r' % (items, t.message))
+            self.templates[hv] = t
+            self.template_items[hv] = items
 
     def run(self, rcpts, hv):
         """-> (violations [(signature, message, replay)], info dict)"""
@@ -307,10 +331,11 @@ class Case(object):
 
         if self.world is not None:
             self.world._uuid_counter = itertools.count()
-        env = make_envelope(rcpts, hv)
+        env = make_envelope(rcpts, hv, self.templates[hv])
         orig_items = [(str(k), str(v)) for k, v in env.headers.raw_items()]
-        if env.message != BODY or env.sender != SENDER or len(orig_items) < 5:
-            raise HarnessError('input envelope not built as intended: %r %r' % (orig_items, env.message))
+        if env.message != BODY or env.sender != SENDER or orig_items != self.template_items[hv]:
+            raise HarnessError('input envelope not built as intended (template contaminated by an earlier case?): '
+                               '%r %r' % (orig_items, env.message))
         had_date = HDR_VARIANTS[hv][1] is not None
         had_mid = HDR_VARIANTS[hv][2] is not None
         self.store.reset()
@@ -385,7 +410,7 @@ class Case(object):
                 bad({'kind': 'body-changed', 'chain_has': chain_has(chain, POLICY_CLASSES)},
                     tag + 'body %r, original %r' % (body, BODY))
             self._check_headers(items, orig_items, had_date, had_mid, tag, bad)
-        if objs:
+        if objs and hv == 0:     # every chain is run with variant 0
             try:
                 flat = objs[-1].flatten()
             except Exception as e:
@@ -572,11 +597,15 @@ def account(res, chain, rcpts, hv, vs, info):
                         'header_names_of_first_written': info['header_names']})
 
 
+SLICES = 4      # each chain's recipient lists are dealt into this many work units
+
+
 def _nparts(tier):
-    return 64 if tier == 'quick' else 256
+    return 128 if tier == 'quick' else 512
 
 
 def configs(tier, seed):
+    # work unit = (chain index, slice of the recipient lists); unit u belongs to configuration u mod N
     n = _nparts(tier)
     return [{'part': k, 'of': n, 'max_chain': _max_chain(tier)} for k in range(n)]
 
@@ -587,10 +616,11 @@ def run_config(cfg, tier, seed):
     chains = all_chains(cfg['max_chain'])
     lists = list(all_rcpt_lists())
     for idx, chain in enumerate(chains):
-        if idx % cfg['of'] != cfg['part']:
-            continue
-        res.count('chains')
-        run_chain(chain, [(rc, hv) for rc in lists for hv in header_variants_for(chain)], res)
+        for j in range(SLICES):
+            if (idx * SLICES + j) % cfg['of'] != cfg['part']:
+                continue
+            res.count('chain_slices')
+            run_chain(chain, [(rc, hv) for rc in lists[j::SLICES] for hv in header_variants_for(chain)], res)
     return res.as_dict()
 
 
